@@ -399,7 +399,7 @@ func writeEvidence(prop, tier string, seed int64, spec *Spec, eng *Engine, resul
 			"functions_encoded":        fnOut,
 			"entries":                  entries,
 			"queries":                  map[string]int64{"feasibility_and_concretisation": qFeas, "vc_by_solver": vcSol, "vc_by_rewriting": vcRew},
-			"solver_queries":           solverQ, "solver_time_s": round2(solverT), "solver": "z3 4.8.12 (persistent, push/pop)",
+			"solver_queries":           solverQ, "solver_time_s": round2(solverT), "solver": solverName(results),
 			"load_and_ssa_build_s":     round2(eng.loadTime.Seconds()),
 			"outside_the_claim":        spec.Outside, "stubs": spec.Stubs,
 			"inconclusive": inconclusive, "known_findings_seen": knownHits,
@@ -688,4 +688,18 @@ func validateSamples(spec *Spec, entry string, fs []*Finding, params map[string]
 		okN++
 	}
 	return okN, ""
+}
+
+func solverName(results []*entryResult) string {
+	k := Z3
+	if len(results) > 0 {
+		k = results[0].Cfg.Solver
+	}
+	switch k {
+	case CVC5:
+		return "cvc5 1.0 (persistent, --incremental, check-sat-assuming)"
+	case Z3New:
+		return "z3 5.1.0 (persistent, check-sat-assuming)"
+	}
+	return "z3 4.8.12 (persistent, check-sat-assuming)"
 }
